@@ -26,6 +26,8 @@ func c10(c *Ctx) {
 	c10caller(c)
 	c10entries(c)
 	workersClamp(c, "C10.R7", "core/mr")
+	// R9: at most the configured number of mappers run at once — the semaphore is sized from the configured count
+	semaphoreCapacity(c, "C10.R9", "core/mr", "executeMappers", "workers")
 	c10panicChanPairing(c)
 }
 
